@@ -164,18 +164,18 @@ contract(
     "esutil.recfile.Util.to_native_inplace",
     params=dict(array="bo"),
     variants=_VARIANTS,
-    requires={"uniformly-ordered": _UNIFORM},
+    # no "uniformly ordered" precondition: a table whose fields differ in byte order is converted field by field (C04)
     ensures={
         "declared-native": "all(bo_order(array, f) == 3 or bo_native(array, f) for f in bo_fields(array))",
         "values-preserved": "all(bo_value(array, f) == bo_value(old(array), f) for f in bo_fields(array))",
         "already-native-input-is-left-bit-identical":
             "not all(bo_order(old(array), f) == 3 or bo_native(old(array), f) for f in bo_fields(array))"
-            " or all(bo_bytes(array, f) == bo_bytes(old(array), f) and bo_order(array, f) == bo_order(old(array), f)"
-            "        for f in bo_fields(array))",
+            " or all(bo_bytes(array, f) == bo_bytes(old(array), f) and (bo_order(array, f) == 3) == (bo_order(old(array), f) == 3)"
+            "        and bo_big(array, f) == bo_big(old(array), f) for f in bo_fields(array))",
         "returns-nothing": "result is None",
     },
     modifies=["array"],
-    props=["C16"],
+    props=["C16", "C04"],
 )
 
 
@@ -276,7 +276,14 @@ contract(
     "esutil.recfile.Util.Recfile.write",
     params=dict(self=_RECW, data="bo"),
     variants=_VARIANTS and [dict(data="bo"), dict(data="bo:a"), dict(data="bo:a,b"), dict(data="bo:a,b,c")],
-    requires={"uniformly-ordered": _UNIFORM.replace("array", "data")},
+    ret_post={"end": {
+        "text-writer-gets-native-order-fields-with-the-caller's-values (each field converted on its own)":
+            "not self.is_ascii or all((bo_order(dataview, f) == 3 or bo_native(dataview, f))"
+            " and bo_value(dataview, f) == bo_value(old(data), f) for f in bo_fields(data))",
+        "binary-writer-gets-the-caller's-bytes-and-order":
+            "self.is_ascii or all(bo_bytes(dataview, f) == bo_bytes(old(data), f) and bo_order(dataview, f) == bo_order(old(data), f)"
+            " for f in bo_fields(data))",
+    }},
     ensures={
         "caller's-table-untouched (bytes and declared byte order)":
             "all(bo_bytes(data, f) == bo_bytes(old(data), f) and bo_order(data, f) == bo_order(old(data), f) for f in bo_fields(data))",
